@@ -110,4 +110,19 @@ CLAIMS = {
         'technique': 'static analysis: finite-domain decision table of the composed score pipeline, regex AST, '
                      'writer/reader agreement (ast only)',
     },
+    'C16': {
+        'text': "Protocol conformance of SandboxResult decided on its class table and method bodies: slot "
+                "completeness against the operator/builtin list of the property (forward and reflected for 14 binary "
+                "operators, six comparisons, conversions, container and unary slots); each of the 28 binary dunders is "
+                "executed abstractly over behaviour tables (own method returns a value / NotImplemented / is absent) x "
+                "(the other operand's reflected method likewise) x (other operand plain or proxied) and compared with "
+                "CPython's operator protocol, so wrapping the NotImplemented sentinel, wrong operand order, and "
+                "failing where CPython succeeds are all findings; exact-type conversions must return the builtin of "
+                "the unwrapped value; no stdout writes; module attributes resolve against the real stdlib; the "
+                "replacement len() must not call itself; membership/iteration go through `in`/iter().",
+        'note': _NOTE + "Not decided: equality of results for user-defined value classes whose __op__ and __rop__ "
+                        "disagree; isinstance spoofing through __getattribute__ is assumed to work as written.",
+        'technique': 'static analysis: protocol-conformance table, finite-domain abstract interpretation of each '
+                     'dunder vs CPython operator protocol, reference resolution (ast only)',
+    },
 }
